@@ -620,3 +620,39 @@ def _prepare_czt_basis(N, M, K, shift, alpha, dtype, norm=False):
 
 mdft = MatrixDFTExecutor()  # NOQA
 czt = ChirpZTransformExecutor()  # NOQA
+
+
+def fourier_resample_backprop(fbar, zoom, samples_in):
+    """Gradient backpropagation for fourier_resample.
+
+    Parameters
+    ----------
+    fbar : ndarray
+        the array from the previous gradient calculation step;
+        has the shape of the output of fourier_resample
+    zoom : float or tuple
+        the zoom given to fourier_resample
+    samples_in : tuple of int
+        shape of the array that was given to fourier_resample
+
+    Returns
+    -------
+    ndarray
+        gradient with respect to the input of fourier_resample, shape samples_in
+
+    """
+    if zoom == 1:
+        return fbar
+
+    if isinstance(zoom, (float, int)):
+        zoom = (zoom, zoom)
+    elif not isinstance(zoom, tuple):
+        zoom = tuple(float(zoom) for zoom in zoom)
+
+    m, n = samples_in
+    # transpose of each step of fourier_resample, in reverse order
+    Fbar = mdft.idft2_backprop(fbar, zoom, (m, n))
+    # transpose of fftshift(fft2(ifftshift(.))): fft2^H = (m*n) ifft2
+    out = fft.fftshift(fft.ifft2(fft.ifftshift(Fbar))).real
+    out *= (m*n) * (zoom[0]*zoom[1])/(np.sqrt(m*n))
+    return out
